@@ -66,7 +66,11 @@ using as_dis_int_dom_t = array_smashing<dis_interval_dom_t>;
 using as_sdbm_dom_t = array_smashing<sdbm_dom_t>;
 using as_bool_int_dom_t = array_smashing<bool_int_dom_t>;
 using pow_int_dom_t = powerset_domain<interval_dom_t>;
+#ifdef VERIF_GENERIC_VALUE
+using generic_dom_t = abstract_domain<var_t>;
+#else
 using generic_dom_t = abstract_domain_ref<var_t>;
+#endif
 
 constexpr unsigned NUM_BASE = CAP_ARITH | CAP_DIV | CAP_UNSIGNED | CAP_BITWISE | CAP_CAST | CAP_SELECT | CAP_HAVOC |
                               CAP_UNREACHABLE | CAP_ASSERT | CAP_NONLINEAR | CAP_DISEQ | CAP_UNSTRUCTURED | CAP_CALL_INTRA;
